@@ -1,10 +1,17 @@
 //! C20 — retention-time alignment and the clamp/delta step of RT / ion-mobility prediction
 //!
-//!   align n_files [n (file pep label q:f32 rt:f32)…]
+//!   align n_files [n (file pep label q:f32 rt:f32 charge rank)…]     (charge, rank, psm_id, masses, scores: must not matter)
 //!       -> [n_files (max_rt:f32 slope:f32 intercept:f32)…] [n aligned_rt:f32…]      | panic
 //!   rtpredict  [np seq…] [n (pep label q:f32 aligned_rt:f32)…]
 //!       -> 1 [n (r:f64 predicted_rt:f32 delta_rt_model:f32)…]   (model fitted; r = predict_peptide)
 //!        | 0 [n (predicted_rt:f32 delta_rt_model:f32)…]           (fit failed: fields untouched)
+//!   rtpredictq / imspredictq [np seq…] [n (pep label charge obs:f32)…]
+//!       spectrum_q is NOT given: the harness runs the real `spectrum_q_value` on the PSMs in the listed
+//!       (= score) order first, so q-values exactly at 0.01 arise naturally (100 targets + 0 decoys, …);
+//!       reply as rtpredict / imspredict
+//!   trainset kind(0 = rt, 1 = ims) delta:f32 [np seq…] [n (pep label q:f32 charge obs:f32 mask)…]
+//!       fit twice: on obs, and on obs + delta for the PSMs with mask = 1
+//!       -> fitA fitB [n (rA:f64 rB:f64)…]     (raw predictions of every PSM under both fits; 0 if no fit)
 //!   predpools kind(0 = rt, 1 = ims) [np seq…] [n (pep label q:f32 charge obs:f32)…]
 //!       -> 4 then, for rayon pools of 1, 2, 4, 16 threads (ThreadPoolBuilder::install):
 //!          fit(0/1) r2:f64 [n (r:f64 predicted:f32 delta:f32)…]     (r2, r = 0 when the fit failed)
@@ -23,7 +30,7 @@ use sage_core::ml::retention_model::{self, RetentionModel};
 use sage_core::peptide::Peptide;
 use sage_core::scoring::Feature;
 
-pub const OPS: &[&str] = &["align", "rtpredict", "imspredict", "predpools", "chainpools"];
+pub const OPS: &[&str] = &["align", "rtpredict", "imspredict", "rtpredictq", "imspredictq", "trainset", "predpools", "chainpools"];
 pub const INFO: Info = Info {
     rule: "align: multi-file PSM sets, 1..8 files, up to 40 peptides (quick) / 100 (thorough); each file is an \
            affine distortion a*t+b of a common profile t (exactly representable distortions of a dyadic profile, \
@@ -31,10 +38,16 @@ pub const INFO: Info = Info {
            are made all-decoy / all q>0.01 (no confident PSM), all-zero RT (MGF without RTINSECONDS), constant RT, \
            1-2 confident peptides (fewer PSMs than parameters), single file, duplicate PSMs per peptide (min is \
            taken), q-values exactly at / one ulp around 0.01, labels outside {1,-1}, negative / huge / non-finite \
-           RTs, file_id >= n_files (panic), plus an exhaustive small scope (all PSM sets of <= 2 (quick) / 3 (thorough) PSMs over 1-2 files x 2 peptides x {confident, not} x rt in {0, 0.5, 2, 3.5}), plus 200 / 3000 sets in which every file is an exact affine image (incl. reversed gradients) of one profile over the same peptides. non-trivial = some file has \
+           RTs, file_id >= n_files (panic); every PSM carries a precursor charge 1..4 that is a function of (file, peptide, index parity) - the same peptide has different charges in different files and among duplicates within a file - a rank 1..3 and index-derived psm_id / spec_id / masses / scores / ims, none of which the alignment may read; plus an exhaustive small scope (all PSM sets of <= 2 (quick) / 3 (thorough) PSMs over 1-2 files x 2 peptides x {confident, not} x rt in {0, 0.5, 2, 3.5}), plus 200 / 3000 sets in which every file is an exact affine image (incl. reversed gradients) of one profile over the same peptides. non-trivial = some file has \
            at least 2 confident target PSMs of distinct peptides. rtpredict/imspredict: 4..80 random tryptic-like \
            peptides, observed values a noisy linear function of composition (or constant / far outside the clamp \
-           range), 0..all PSMs confident; non-trivial = the model was fitted. predpools: the same kind of \
+           range), 0..all PSMs confident, q-values Q, exactly 0.01f32, one ulp below (confident) and one ulp above / 0.2 \
+           (not confident), incl. directed sets where ONE target sits exactly at 0.01 and where all do; \
+           rtpredictq/imspredictq: q from the real spectrum_q_value on 100 targets + 0 decoys, 200 + 1, 300 + 2, \
+           99/101 targets (all q at / just off 0.01) and random label sequences; trainset: the training set is \
+           probed by perturbing the observed value of chosen PSMs (all non-confident ones / one PSM exactly at \
+           0.01 / one ulp above / a decoy / a plain confident one) and comparing the raw predictions of two fits; \
+           non-trivial = the model was fitted. predpools: the same kind of \
            database with 200..3000 PSMs (large enough for rayon to split the par_iter pipelines), RT and IM, run \
            under pools of 1/2/4/16 threads; chainpools: alignment + RT prediction of a multi-file set under the \
            same pools (observational)",
@@ -56,10 +69,18 @@ struct F {
 fn align_request(n_files: usize, fs: &[F]) -> String {
     let mut o = Out::new();
     o.raw("align").n(n_files).n(fs.len());
-    for f in fs {
-        o.n(f.file).n(f.pep).n(f.label).f32(f.q).f32(f.rt);
+    for (i, f) in fs.iter().enumerate() {
+        o.n(f.file).n(f.pep).n(f.label).f32(f.q).f32(f.rt).n(charge_of(f.file, f.pep, i)).n(1 + (i * 7 + f.pep) % 3);
     }
     o.finish()
+}
+
+/// precursor charge of PSM `i`: a function of (file, peptide) so that the SAME peptide is seen at
+/// different charges in different files (3 in 4 pairs), and of the PSM index so that duplicates of a
+/// peptide within a file differ too. The alignment must key its anchors by peptide only.
+fn charge_of(file: usize, pep: usize, i: usize) -> usize {
+    let h = (pep as u64).wrapping_mul(0x9E37_79B9_7F4A_7C15) ^ (file as u64).wrapping_mul(0xBF58_476D_1CE4_E5B9) ^ ((i % 2) as u64 * 0x94D0_49BB);
+    1 + ((h >> 29) % 4) as usize
 }
 
 fn align_case(n_files: usize, fs: &[F]) -> Case {
@@ -343,14 +364,16 @@ fn gen_align(rng: &mut Rng, tier: Tier, emit: &mut dyn FnMut(Case)) {
 fn exec_align(t: &mut Toks) -> Option<String> {
     let n_files = t.usize()?;
     let fs = t.list(|t| {
-        Some(F { file: t.usize()?, pep: t.usize()?, label: t.i64()? as i32, q: t.f32()?, rt: t.f32()? })
+        let f = F { file: t.usize()?, pep: t.usize()?, label: t.i64()? as i32, q: t.f32()?, rt: t.f32()? };
+        Some((f, t.usize()?, t.usize()?))
     })?;
     if !t.done() {
         return None;
     }
     let mut feats: Vec<Feature> = fs
         .iter()
-        .map(|f| {
+        .enumerate()
+        .map(|(i, (f, charge, rank))| {
             let mut x = super::util::blank_feature();
             x.file_id = f.file;
             x.peptide_idx = PeptideIx(f.pep as u32);
@@ -358,6 +381,22 @@ fn exec_align(t: &mut Toks) -> Option<String> {
             x.spectrum_q = f.q;
             x.rt = f.rt;
             x.aligned_rt = f32::NAN; // must be overwritten
+            // fields the alignment must not read
+            x.charge = *charge as u8;
+            x.rank = *rank as u32;
+            x.psm_id = i * 13 + 5;
+            x.spec_id = format!("scan={}", 1000 - i);
+            x.peptide_len = 7 + i % 20;
+            x.expmass = 800.0 + (i * 37 % 1900) as f32;
+            x.calcmass = x.expmass - 0.001 * (i % 5) as f32;
+            x.hyperscore = 10.0 + (i * 17 % 50) as f64;
+            x.discriminant_score = (i as f32 * 0.37).sin();
+            x.ims = 0.5 + (i % 11) as f32 * 0.07;
+            x.predicted_rt = 0.123;
+            x.delta_rt_model = 0.456;
+            x.peptide_q = 0.5;
+            x.protein_q = 0.25;
+            x.posterior_error = -3.0;
             x
         })
         .collect();
@@ -443,7 +482,17 @@ fn gen_predict(rng: &mut Rng, tier: Tier, emit: &mut dyn FnMut(Case)) {
                 _ => rng.chance(3, 4),
             };
             let label = if rng.chance(1, 10) { -1 } else { 1 };
-            let q = if confident { Q_CONF } else { 0.2 };
+            let q = if confident {
+                match rng.below(12) {
+                    0 | 1 => 0.01,            // exactly at the threshold: still a training PSM
+                    2 => next_down(0.01),
+                    _ => Q_CONF,
+                }
+            } else if rng.chance(1, 4) {
+                next_up(0.01)
+            } else {
+                0.2
+            };
             fs.push(PF { pep, label, q, charge, obs });
         }
         let tag = match mode {
@@ -456,6 +505,28 @@ fn gen_predict(rng: &mut Rng, tier: Tier, emit: &mut dyn FnMut(Case)) {
         };
         emit(Case::new(predict_request(op, &seqs, &fs)).tag(tag));
     }
+    // directed: q exactly AT the threshold of the two `spectrum_q <= 0.01` filters of each model
+    // (response vector and design matrix must keep the same PSMs)
+    for op in ["rtpredict", "imspredict"] {
+        for variant in 0..4 {
+            let n_peps = 12;
+            let seqs: Vec<String> = (0..n_peps).map(|_| random_peptide(rng)).collect();
+            let mut fs = Vec::new();
+            for i in 0..30usize {
+                let q = match variant {
+                    0 => if i == 17 { 0.01 } else { Q_CONF },          // ONE target exactly at 0.01
+                    1 => 0.01,                                          // all exactly at 0.01
+                    2 => if i % 3 == 0 { next_up(0.01) } else { next_down(0.01) },
+                    _ => if i == 3 { 0.01 } else { 0.2 },               // the only training PSM is AT the threshold
+                };
+                let label = if i % 11 == 10 { -1 } else { 1 };
+                fs.push(PF { pep: i % n_peps, label, q, charge: 2 + (i % 3) as u8, obs: 0.1 + 0.02 * i as f32 });
+            }
+            emit(Case::new(predict_request(op, &seqs, &fs)).tag("q-at-threshold"));
+        }
+    }
+    gen_predictq(rng, tier, emit);
+    gen_trainset(rng, tier, emit);
     // directed: empty feature list, single PSM
     emit(Case::new(predict_request("rtpredict", &["PEPTIDEK".to_string()], &[])).tag("empty").nontrivial(false));
     emit(Case::new(predict_request(
@@ -472,19 +543,203 @@ fn gen_predict(rng: &mut Rng, tier: Tier, emit: &mut dyn FnMut(Case)) {
     .tag("single-psm"));
 }
 
-fn exec_predict(op: &str, t: &mut Toks) -> Option<String> {
-    let ims = op == "imspredict";
+/// label sequences (true = decoy) whose real `spectrum_q_value` lands exactly on / next to 0.01
+fn gen_predictq(rng: &mut Rng, tier: Tier, emit: &mut dyn FnMut(Case)) {
+    let mut seqs_of_labels: Vec<(Vec<bool>, &'static str)> = vec![];
+    let t = |n: usize| vec![false; n];
+    seqs_of_labels.push((t(100), "q-natural-100t-0d")); // every q = 1/100 = 0.01f32 exactly
+    seqs_of_labels.push((t(99), "q-natural-99t"));     // 1/99 > 0.01: nobody confident
+    seqs_of_labels.push((t(101), "q-natural-101t"));   // 1/101 < 0.01
+    // 200 targets + 1 decoy: (1+1)/200 = 0.01 at the end
+    for pos in [0usize, 57, 150, 199] {
+        let mut l = t(200);
+        l.insert(pos, true);
+        seqs_of_labels.push((l, "q-natural-200t-1d"));
+    }
+    // 100 targets (q = 0.01), then a decoy and a tail of targets with larger q
+    let mut l = t(100);
+    l.push(true);
+    l.extend(t(30));
+    seqs_of_labels.push((l, "q-natural-100t-then-decoy"));
+    let mut l = t(300);
+    l.insert(120, true);
+    l.insert(250, true);
+    seqs_of_labels.push((l, "q-natural-300t-2d"));
+    let n_rand = if tier == Tier::Quick { 6 } else { 100 };
+    for _ in 0..n_rand {
+        let n = 50 + rng.below(400);
+        let rate = *rng.pick(&[0u32, 1, 3]);
+        seqs_of_labels.push(((0..n).map(|_| rng.chance(rate, 100)).collect(), "q-natural-random"));
+    }
+    for (k, (labels, tag)) in seqs_of_labels.into_iter().enumerate() {
+        let ims = k % 2 == 1;
+        let n_peps = 15 + rng.below(30);
+        let seqs: Vec<String> = (0..n_peps).map(|_| random_peptide(rng)).collect();
+        let mut o = Out::new();
+        o.raw(if ims { "imspredictq" } else { "rtpredictq" }).n(seqs.len());
+        for s in &seqs {
+            o.s(s);
+        }
+        o.n(labels.len());
+        for (i, &decoy) in labels.iter().enumerate() {
+            let pep = rng.below(n_peps);
+            let obs = (0.1 + 0.6 * (pep as f64 / n_peps as f64) + 0.02 * (rng.unit() - 0.5)) as f32;
+            o.n(pep).n(if decoy { -1 } else { 1 }).n(1 + (i + pep) % 4).f32(obs);
+        }
+        emit(Case::new(o.finish()).tag(tag).tag("q-from-spectrum_q_value"));
+    }
+}
+
+fn gen_trainset(rng: &mut Rng, tier: Tier, emit: &mut dyn FnMut(Case)) {
+    let n_cases = if tier == Tier::Quick { 48 } else { 600 };
+    for k in 0..n_cases {
+        let ims = (k / 6) % 2 == 1;
+        let n_peps = 8 + rng.below(30);
+        let seqs: Vec<String> = (0..n_peps).map(|_| random_peptide(rng)).collect();
+        let n = 20 + rng.below(100);
+        let mut fs: Vec<(PF, bool)> = Vec::new();
+        for i in 0..n {
+            let pep = rng.below(n_peps);
+            let q = match rng.below(8) {
+                0 => 0.01,
+                1 => next_up(0.01),
+                2 => next_down(0.01),
+                3 => 0.2,
+                _ => Q_CONF,
+            };
+            let label = if rng.chance(1, 8) { -1 } else { 1 };
+            let obs = (0.1 + 0.6 * (pep as f64 / n_peps as f64) + 0.02 * (rng.unit() - 0.5)) as f32;
+            fs.push((PF { pep, label, q, charge: 1 + ((i + pep) % 4) as u8, obs }, false));
+        }
+        let conf = |f: &PF| f.label == 1 && f.q <= 0.01;
+        // which PSMs get their observed value perturbed
+        let mode = k % 6;
+        let mut delta = 0.25f32;
+        let tag = match mode {
+            0 => {
+                for f in fs.iter_mut() {
+                    f.1 = !conf(&f.0);
+                }
+                "perturb-all-non-training"
+            }
+            1 => {
+                // one target exactly AT the threshold (force one to exist)
+                let i = rng.below(n);
+                fs[i].0.q = 0.01;
+                fs[i].0.label = 1;
+                fs[i].1 = true;
+                "perturb-one-at-threshold"
+            }
+            2 => {
+                let i = rng.below(n);
+                fs[i].0.q = next_up(0.01);
+                fs[i].0.label = 1;
+                fs[i].1 = true;
+                "perturb-one-ulp-above-threshold"
+            }
+            3 => {
+                let i = rng.below(n);
+                fs[i].0.q = Q_CONF;
+                fs[i].0.label = -1;
+                fs[i].1 = true;
+                "perturb-one-decoy"
+            }
+            4 => {
+                let i = rng.below(n);
+                fs[i].0.q = Q_CONF;
+                fs[i].0.label = 1;
+                fs[i].1 = true;
+                "perturb-one-training"
+            }
+            _ => {
+                // wreck the fit quality (every other training PSM shifted by 3): whether the model can be
+                // fitted depends on the design matrix only (Gauss::left_solved), never on the observed values
+                for (i, f) in fs.iter_mut().enumerate() {
+                    f.1 = conf(&f.0) && i % 2 == 0;
+                }
+                delta = 3.0;
+                "perturb-half-of-training"
+            }
+        };
+        let mut o = Out::new();
+        o.raw("trainset").b(ims).f32(delta).n(seqs.len());
+        for s in &seqs {
+            o.s(s);
+        }
+        o.n(fs.len());
+        for (f, m) in &fs {
+            o.n(f.pep).n(f.label).f32(f.q).n(f.charge).f32(f.obs).b(*m);
+        }
+        emit(Case::new(o.finish()).tag(tag).tag("training-set-probe"));
+    }
+}
+
+fn feature_of(f: &PF, ims: bool, obs: f32) -> Feature {
+    let mut x = super::util::blank_feature();
+    x.peptide_idx = PeptideIx(f.pep as u32);
+    x.label = f.label;
+    x.spectrum_q = f.q;
+    x.charge = f.charge;
+    if ims {
+        x.ims = obs;
+    } else {
+        x.aligned_rt = obs;
+    }
+    x
+}
+
+fn exec_trainset(t: &mut Toks) -> Option<String> {
+    let ims = t.bool()?;
+    let delta = t.f32()?;
     let seqs = t.list(|t| t.string())?;
     let fs = t.list(|t| {
+        let f = PF { pep: t.usize()?, label: t.i64()? as i32, q: t.f32()?, charge: t.usize()? as u8, obs: t.f32()? };
+        Some((f, t.bool()?))
+    })?;
+    if !t.done() {
+        return None;
+    }
+    let db = build_db(&seqs)?;
+    let raw = |perturbed: bool| -> Option<Vec<f64>> {
+        let feats: Vec<Feature> =
+            fs.iter().map(|(f, m)| feature_of(f, ims, if perturbed && *m { f.obs + delta } else { f.obs })).collect();
+        if ims {
+            MobilityModel::fit(&db, &feats).map(|lr| feats.iter().map(|f| lr.predict_peptide(&db, f)).collect())
+        } else {
+            RetentionModel::fit(&db, &feats).map(|lr| feats.iter().map(|f| lr.predict_peptide(&db, f)).collect())
+        }
+    };
+    let (a, b) = (raw(false), raw(true));
+    let mut o = Out::new();
+    o.b(a.is_some()).b(b.is_some()).n(fs.len());
+    for i in 0..fs.len() {
+        o.f64(a.as_ref().map(|v| v[i]).unwrap_or(0.0)).f64(b.as_ref().map(|v| v[i]).unwrap_or(0.0));
+    }
+    Some(o.finish())
+}
+
+fn exec_predict(op: &str, t: &mut Toks) -> Option<String> {
+    let ims = op.starts_with("ims");
+    let natural_q = op.ends_with('q');
+    let seqs = t.list(|t| t.string())?;
+    let mut fs = t.list(|t| {
         let pep = t.usize()?;
         let label = t.i64()? as i32;
-        let q = t.f32()?;
-        let charge = if ims { t.usize()? as u8 } else { 2 };
+        let q = if natural_q { 1.0 } else { t.f32()? };
+        let charge = if ims || natural_q { t.usize()? as u8 } else { 2 };
         let obs = t.f32()?;
         Some(PF { pep, label, q, charge, obs })
     })?;
     if !t.done() {
         return None;
+    }
+    if natural_q {
+        // q-values from the REAL `spectrum_q_value`, PSMs in the listed (= decreasing score) order
+        let mut tmp: Vec<Feature> = fs.iter().map(|f| feature_of(f, ims, f.obs)).collect();
+        sage_core::ml::qvalue::spectrum_q_value(&mut tmp);
+        for (f, x) in fs.iter_mut().zip(tmp.iter()) {
+            f.q = x.spectrum_q;
+        }
     }
     let mut peptides = Vec::new();
     for s in &seqs {
@@ -725,7 +980,8 @@ pub fn gen(rng: &mut Rng, tier: Tier, emit: &mut dyn FnMut(Case)) {
 pub fn exec(op: &str, t: &mut Toks) -> Option<String> {
     match op {
         "align" => exec_align(t),
-        "rtpredict" | "imspredict" => exec_predict(op, t),
+        "rtpredict" | "imspredict" | "rtpredictq" | "imspredictq" => exec_predict(op, t),
+        "trainset" => exec_trainset(t),
         "predpools" => exec_predpools(t),
         "chainpools" => exec_chainpools(t),
         _ => None,
